@@ -49,7 +49,8 @@ RULE = ("constructor kind (floats without/with reference, reference as datetime 
         "datetime64), datetime stamps, datetime64[us] stamps x histories of 4-7 steps over {set(x), set(None), read, copy, deepcopy}, "
         "every sample compared in whole microseconds")
 
-EPOCH = datetime(2000, 1, 1)
+EPOCH = datetime(2000, 3, 26, 0, 30)     # 90 minutes before a daylight-saving change of the zones ./check runs in: naive date-time
+                                         # arithmetic does not know about it (and must not), conversions through POSIX timestamps do
 NS_FINDING = "F23"          # id under which the nanosecond-resolution defect is to be registered in known_findings.json
 BAD_KINDS = ("np64", "str", "float", "date", "int")
 COPY_HOWS = ("name", "pos", "deep", "db")      # besides plain "copy" (= copy() / copy.copy alternating with the step index)
